@@ -269,6 +269,18 @@ impl<T: Float, B: AutodiffBackend> BatchedGradientTarget<T, B> for BoxU {
         Tensor::<B, 1>::zeros([n], &p.device()).mask_fill(outside, f32::NEG_INFINITY)
     }
 }
+/// The same box, evaluated on the host and handed back as a tensor built from data: an untracked leaf of the autodiff graph.
+#[derive(Clone)]
+pub struct BoxLeaf;
+impl<T: Float + burn::tensor::Element, B: AutodiffBackend> BatchedGradientTarget<T, B> for BoxLeaf {
+    fn unnorm_logp_batch(&self, p: Tensor<B, 2>) -> Tensor<B, 1> {
+        let [n, d] = p.dims();
+        let dev = p.device();
+        let v: Vec<f64> = p.into_data().convert::<f64>().to_vec::<f64>().unwrap();
+        let lp: Vec<f64> = (0..n).map(|r| if v[r * d..(r + 1) * d].iter().all(|x| *x > 0.0 && *x < 1.0) { 0.0 } else { f64::NEG_INFINITY }).collect();
+        Tensor::<B, 1>::from_data(TensorData::new(lp, [n]), &dev)
+    }
+}
 #[derive(Clone)]
 pub struct HalfLine;
 impl<T: Float, B: AutodiffBackend> BatchedGradientTarget<T, B> for HalfLine {
@@ -445,6 +457,8 @@ pub fn record(args: &[String]) {
         for e2 in [0.05, 0.4] {
             record_run::<B64, f64, _>(&mut out, "box/f64", Own::BoxU, BoxU, bi.clone(), e2, l.clamp(0, 9), steps, seed + 500 + c as u64, 1e-7, &mut moved);
             record_run::<B32, f32, _>(&mut out, "box/f32", Own::BoxU, BoxU, bi.clone(), e2, l.clamp(0, 9), steps, seed + 500 + c as u64, 3e-4, &mut moved);
+            record_run::<B64, f64, _>(&mut out, "boxleaf/f64", Own::BoxU, BoxLeaf, bi.clone(), e2, l.clamp(0, 9), steps, seed + 510 + c as u64, 1e-7, &mut moved);
+            record_run::<B32, f32, _>(&mut out, "boxleaf/f32", Own::BoxU, BoxLeaf, bi.clone(), e2, l.clamp(0, 9), steps, seed + 510 + c as u64, 3e-4, &mut moved);
         }
     }
     // the corner of the quantifier in every tier: 32 chains x 16 dimensions, 64 leapfrog steps
